@@ -149,19 +149,33 @@ def partials_pruner(r, epg, ncase):
         batch = [None, (2,), (3,)][r.integers(3)]
         thr = float([1e-6, 1e-4, 1e-3][r.integers(3)])
         necho = int(r.integers(5, 40))
-        T2 = pick(r, 10, 120) if batch is None else r.uniform(8, 150, size=batch).tolist()
+        if batch is None:
+            T2 = pick(r, 10, 120)
+        else:
+            # heterogeneous batches: one signal decays fast (its partials become negligible early), the others do not
+            t2 = r.uniform(60, 200, size=batch)
+            if r.random() < 0.8:
+                t2[int(r.integers(batch[0]))] = float(r.uniform(3, 9))
+            T2 = t2.tolist()
         T1 = pick(r, 300, 1500)
         a = pick(r, 100, 180)
         seq = [epg.T(90, 90)]
         for _ in range(necho):
             seq += [epg.E(4, T1, T2, order1="T2"), epg.S(1), epg.T(a, 0, order1="alpha"), epg.S(1), epg.E(4, T1, T2, order1="T2"), epg.ADC]
         removed = [0]
+        nonneg = []  # removed partials that were NOT negligible for some signal of the batch
 
         class Counting(D.PartialsPruner):
             def __call__(self, sm):
-                before = len(getattr(sm, "order1", {}))
+                before = dict(getattr(sm, "order1", {}))
+                norms = {v: np.asarray(p.norm).copy() for v, p in before.items()}
                 super().__call__(sm)
-                removed[0] += before - len(getattr(sm, "order1", {}))
+                after = getattr(sm, "order1", {})
+                for v in before:
+                    if v not in after:
+                        removed[0] += 1
+                        if np.any(norms[v] >= thr):
+                            nonneg.append((v, norms[v].tolist()))
 
         try:
             with warnings.catch_warnings():
@@ -173,7 +187,11 @@ def partials_pruner(r, epg, ncase):
             continue
         checked += 1
         err = float(np.max(np.abs(J0 - J1)))
-        if err > thr * max(removed[0], 1) * (1 + 1e-6):
+        if nonneg:
+            dis.append({"kind": "c13-pruner", "problems": [("a partial that is not negligible for every signal was removed (variable, norms per signal, threshold)",
+                                                             nonneg[0][0], nonneg[0][1], thr)],
+                        "input": {"necho": necho, "T1": T1, "T2": T2, "alpha": a, "thr": thr}})
+        elif err > thr * max(removed[0], 1) * (1 + 1e-6):
             dis.append({"kind": "c13-pruner", "problems": [("Jacobian changed by more than threshold x removals", err, thr, removed[0])],
                         "input": {"necho": necho, "T1": T1, "T2": T2, "alpha": a, "thr": thr}})
     return checked, dis
